@@ -42,16 +42,68 @@ fn run(c: &Check, tier: Tier, seed: u64, t0: Instant) -> i32 {
     let mut extra = json!({});
     if let Ok(bin) = std::env::var("BCVERIF_TSAN_BIN") {
         if std::path::Path::new(&bin).exists() {
-            let plans: Vec<WorkerPlan> = (0..4).map(|i| WorkerPlan { mode: "tsan".into(), shard: i, nshards: 4, timeout: to }).collect();
-            let o2 = run_workers_with(&c.spec, tier, seed, plans, 4, Some(std::path::PathBuf::from(&bin)));
-            extra["tsan_episodes"] = json!(o2.counters.get("episodes").cloned().unwrap_or(0));
-            if let Ok(s) = std::env::var("BCVERIF_TSAN_SUMMARY") {
-                extra["tsan_reports"] = json!(s);
+            let logdir = std::path::PathBuf::from(std::env::var("BCVERIF_TSAN_LOGDIR").unwrap_or("/tmp/bcverif-tsan".into()));
+            let _ = std::fs::remove_dir_all(&logdir);
+            let _ = std::fs::create_dir_all(&logdir);
+            std::env::set_var("TSAN_OPTIONS", format!("halt_on_error=0 exitcode=0 log_path={}/r", logdir.display()));
+            // 1. the sanitizer must be alive: a deliberate race has to be reported
+            let _ = std::process::Command::new(&bin).arg("tsan-selftest").stdout(std::process::Stdio::null()).stderr(std::process::Stdio::null()).status();
+            let (self_reports, _, _) = tsan_reports(&logdir);
+            extra["tsan_selftest_reports"] = json!(self_reports);
+            let _ = std::fs::remove_dir_all(&logdir);
+            let _ = std::fs::create_dir_all(&logdir);
+            if self_reports == 0 {
+                out.inconclusive.push("the ThreadSanitizer build did not report a deliberate data race: its reports cannot be trusted".into());
+            } else {
+                // 2. the same worker, instrumented
+                let plans: Vec<WorkerPlan> = (0..8).map(|i| WorkerPlan { mode: "tsan".into(), shard: i, nshards: 8, timeout: to }).collect();
+                let o2 = run_workers_with(&c.spec, tier, seed, plans, 8, Some(std::path::PathBuf::from(&bin)));
+                extra["tsan_episodes"] = json!(o2.counters.get("episodes").cloned().unwrap_or(0));
+                extra["tsan_operations"] = json!(o2.counters.get("operations").cloned().unwrap_or(0));
+                out.merge(o2);
+                let (n, in_repo, external) = tsan_reports(&logdir);
+                extra["tsan_reports_total"] = json!(n);
+                extra["tsan_reports_external_only"] = json!(external.len());
+                extra["tsan_external_examples"] = json!(external.iter().take(3).collect::<Vec<_>>());
+                for (site, text) in in_repo {
+                    let keep = crate::orch::verif_root().join("replays").join(format!("C04-tsan-{:016x}.txt", crate::orch::fnv(site.as_bytes())));
+                    let _ = std::fs::create_dir_all(keep.parent().unwrap());
+                    let _ = std::fs::write(&keep, &text);
+                    out.violation(&format!("tsan-data-race:{}", site), format!("ThreadSanitizer reported a data race with a frame in the repository at {} (report kept in {})", site, keep.display()), json!({"property": "C04", "report": keep.to_str()}));
+                }
             }
-            out.merge(o2);
         }
     }
     conclude(&c.spec, tier, seed, out, t0.elapsed().as_secs_f64(), 30, extra)
+}
+
+/// Parse ThreadSanitizer log files: (number of reports, reports with a frame in /repo/src as
+/// (first repository frame, text), first lines of reports without one).
+fn tsan_reports(dir: &std::path::Path) -> (u64, Vec<(String, String)>, Vec<String>) {
+    let mut n = 0;
+    let mut in_repo: Vec<(String, String)> = Vec::new();
+    let mut external = Vec::new();
+    if let Ok(rd) = std::fs::read_dir(dir) {
+        for e in rd.flatten() {
+            let text = std::fs::read_to_string(e.path()).unwrap_or_default();
+            for rep in text.split("==================").filter(|b| b.contains("WARNING: ThreadSanitizer")) {
+                n += 1;
+                let site = rep.lines().find(|l| l.contains("/repo/src/")).map(|l| {
+                    let i = l.find("/repo/src/").unwrap();
+                    l[i + 6..].split_whitespace().next().unwrap_or("").trim_end_matches(')').to_string()
+                });
+                match site {
+                    Some(s) => {
+                        if !in_repo.iter().any(|(x, _)| *x == s) {
+                            in_repo.push((s, rep.to_string()));
+                        }
+                    }
+                    None => external.push(rep.lines().find(|l| l.contains("WARNING")).unwrap_or("").to_string()),
+                }
+            }
+        }
+    }
+    (n, in_repo, external)
 }
 
 static CLOCK: AtomicU64 = AtomicU64::new(1);
